@@ -53,6 +53,15 @@ theorem tickets_resolve (cfg : Fixes) (h35 : cfg.f35 = true) (behs : List Beh) (
     ∀ y ∈ runOps (initial cfg behs) ops, ∀ wt ∈ y.st.waiters,
       (y.st.isRaised wt.done = true ∨ y.st.isRaised 0 = true) → wt.resolved = true := c07_tickets cfg h35 behs ops
 
+/-- non-vacuity for "every clone of a ticket, any number of tasks waiting": three tasks await clones of one wait-for-end
+    ticket (`Op.clone`); all of them resolve when the process ends, none before -/
+example : ((runOps (initial Fixes.all [.exitsAfter 30])
+      [.send .normal [.start] true, .settle, .send .high [.nextEnding] true, .clone 1, .clone 1, .advance 10]).map
+        (fun y => (y.st.waiters.length, (y.st.waiters.filter (·.resolved)).length))) = [(4, 1)] ∧
+    ((runOps (initial Fixes.all [.exitsAfter 30])
+      [.send .normal [.start] true, .settle, .send .high [.nextEnding] true, .clone 1, .clone 1, .advance 50]).map
+        (fun y => (y.st.waiters.length, (y.st.waiters.filter (·.resolved)).length))) = [(4, 4)] := by decide
+
 /-- **exactly once**: a raised flag belongs to a control that `recv` has returned, and each queue is consumed as a prefix of what was sent -/
 theorem executed_once (cfg : Fixes) (behs : List Beh) (ops : List Op) :
     ∀ y ∈ runOps (initial cfg behs) ops,
